@@ -15,7 +15,7 @@ impl Prop for C10 {
         any_case(tier, (5, 3, 2), &TreeKind::ALL)
     }
     fn cases(&self, tier: Tier, _build: &str) -> u32 {
-        if tier == Tier::Quick { 24_000 } else { 250_000 }
+        if tier == Tier::Quick { 24_000 } else { 120_000 }
     }
     fn transcript_pairs(&self) -> Vec<(&'static str, &'static str)> {
         vec![("fast", "checked")]
@@ -49,8 +49,8 @@ impl Prop for C11 {
         match (tier, build) {
             (Tier::Quick, "fast") => 20_000,
             (Tier::Quick, _) => 8_000,
-            (Tier::Thorough, "fast") => 200_000,
-            (Tier::Thorough, _) => 60_000,
+            (Tier::Thorough, "fast") => 120_000,
+            (Tier::Thorough, _) => 30_000,
         }
     }
     fn rule(&self) -> &'static str {
